@@ -286,5 +286,6 @@ def seq_of(pv, st=None):
         k = Val.tk(pv.z)
         from z3 import Lambda
         j = Int('j!l')
+        if st is not None: st.assume(tup_len(k) >= 0)           # a length
         return Lambda([j], tup_item(k, j)), tup_len(k)
     raise Unsupported(f'seq_of({pv!r})')
